@@ -139,14 +139,33 @@ def int_pow(x, n):
     return r if r is not None else (z3.IntVal(1) if x.sort() == I else z3.RealVal(1))
 
 
-def _floordiv(a, b):
+pydiv = z3.Function("pydiv", I, I, I)  # Python floor division by a non-constant divisor
+pymod = z3.Function("pymod", I, I, I)  # Python modulo (sign follows the divisor)
+
+
+def divmod_axioms():
+    a, n = z3.Ints("a!dm n!dm")
+    return [z3.ForAll([a, n], z3.Implies(n != 0, z3.And(a == n * pydiv(a, n) + pymod(a, n),
+                                                        z3.Implies(n > 0, z3.And(pymod(a, n) >= 0, pymod(a, n) < n)),
+                                                        z3.Implies(n < 0, z3.And(pymod(a, n) <= 0, pymod(a, n) > n)))),
+                      patterns=[pydiv(a, n), pymod(a, n)])]
+
+
+def _floordiv_const(a, b):
     # floor(a/b): for b>0 z3's a div b is floor. for b<0: floor(a/b) = floor((-a)/(-b)) = (-a) div (-b)
     return z3.If(b > 0, a / b, (-a) / (-b))
 
 
+def _floordiv(a, b):
+    if z3.is_int_value(b):
+        return _floordiv_const(a, b)
+    return pydiv(a, b)
+
+
 def _pymod(a, b):
-    # python: a - b*floor(a/b)
-    return a - b * _floordiv(a, b)
+    if z3.is_int_value(b):
+        return a - b * _floordiv_const(a, b)
+    return pymod(a, b)
 
 
 def arith(op, a, b):
